@@ -230,6 +230,121 @@ def extract_base(tree):
   return quote, sorted(set(pieces))
 
 
+CTLBASE = 'pyglove/core/views/html/controls/base.py'
+JS_SITES = ['updateText', 'updateInnerHtml', 'insertAdjacentHtml', 'addCssRules', 'updateStyle',
+            'updateProperty']
+JS_SITE_FUNCS = {'_update_text': ('updateText', 'content'), '_update_inner_html': ('updateInnerHtml', 'html'),
+                 '_insert_adjacent_html': ('insertAdjacentHtml', 'html'), '_add_css_rules': ('addCssRules', 'css'),
+                 '_update_style': ('updateStyle', 'updated_styles'), '_update_property': ('updateProperty', 'value')}
+# holes of the update scripts that are developer-chosen identifiers / selectors, not user text
+JS_IDENT_HOLES = {'self.element_id(child)', 'self.element_id()', 'name', 'css_class', 'position', 'var_name',
+                  'element_selector_js', 'index'}
+
+
+def js_escape_arg(n):
+  """x for `Html.escape(x, javascript_str=True)` optionally followed by `.to_str(content_only=True)`."""
+  if (isinstance(n, ast.Call) and isinstance(n.func, ast.Attribute) and n.func.attr == 'to_str'):
+    n = n.func.value
+  if isinstance(n, ast.Call) and is_html_attr(n.func, 'escape') and len(n.args) == 1:
+    for kw in n.keywords:
+      if kw.arg == 'javascript_str' and isinstance(kw.value, ast.Constant) and kw.value.value is True:
+        return n.args[0]
+  return None
+
+
+def extract_js_table(tree):
+  """The javascript_str branch of Html.escape: a chain of s.replace(a, b) (sequential, order matters)
+  or s.translate(TABLE) with a module-level str.maketrans({...}) (single pass)."""
+  cls = common.find_class(tree, 'Html')
+  esc = common.find_func(cls, 'escape')
+  branch = None
+  for n in ast.walk(esc):
+    if isinstance(n, ast.If) and ast.unparse(n.test) == 'javascript_str':
+      branch = n
+  if branch is None or len(branch.body) == 0 or not isinstance(branch.body[-1], ast.Return):
+    raise TranslatorError('Html.escape: `if javascript_str: return …` not found')
+  e = branch.body[-1].value
+  pairs = []
+  cur = e
+  while (isinstance(cur, ast.Call) and isinstance(cur.func, ast.Attribute) and cur.func.attr == 'replace'):
+    if not (len(cur.args) == 2 and all(isinstance(a, ast.Constant) and isinstance(a.value, str) for a in cur.args)
+            and len(cur.args[0].value) == 1):
+      raise TranslatorError('Html.escape(javascript_str): replace() with non-constant / multi-character arguments')
+    pairs.append((cur.args[0].value, cur.args[1].value))
+    cur = cur.func.value
+  if pairs:
+    if not (isinstance(cur, ast.Name) and cur.id == 's'):
+      raise TranslatorError('Html.escape(javascript_str): the replace chain does not start at `s`')
+    return list(reversed(pairs)), True
+  if (isinstance(e, ast.Call) and isinstance(e.func, ast.Attribute) and e.func.attr == 'translate'
+      and isinstance(e.func.value, ast.Name) and e.func.value.id == 's' and len(e.args) == 1
+      and isinstance(e.args[0], ast.Name)):
+    name = e.args[0].id
+    for n in tree.body:
+      if (isinstance(n, ast.Assign) and len(n.targets) == 1 and isinstance(n.targets[0], ast.Name)
+          and n.targets[0].id == name and isinstance(n.value, ast.Call)
+          and ast.unparse(n.value.func) == 'str.maketrans' and len(n.value.args) == 1
+          and isinstance(n.value.args[0], ast.Dict)):
+        d = n.value.args[0]
+        out = []
+        for k, v in zip(d.keys, d.values):
+          if not (isinstance(k, ast.Constant) and isinstance(k.value, str) and len(k.value) == 1
+                  and isinstance(v, ast.Constant) and isinstance(v.value, str)):
+            raise TranslatorError('Html.escape(javascript_str): translate table with non-constant entries')
+          out.append((k.value, v.value))
+        return out, False
+    raise TranslatorError(f'Html.escape(javascript_str): translate table `{name}` not found')
+  raise TranslatorError('Html.escape(javascript_str): neither a replace chain nor s.translate(TABLE)')
+
+
+def extract_js_sites(trees):
+  """For every self._run_javascript(f"...") in the controls: every hole is an escaped text
+  (Html.escape(x, javascript_str=True)), a developer-chosen identifier, or a registered raw site."""
+  table = {}
+  for rel in (CTLBASE, LABEL, TOOLTIP, TAB, PROGRESS):
+    for fn in ast.walk(trees[rel]):
+      if not isinstance(fn, ast.FunctionDef):
+        continue
+      for n in ast.walk(fn):
+        if not (isinstance(n, ast.Call) and isinstance(n.func, ast.Attribute) and n.func.attr == '_run_javascript'
+                and isinstance(n.func.value, ast.Name) and n.func.value.id == 'self'):
+          continue
+        if not n.args:
+          raise TranslatorError(f'{rel}:{n.lineno}: _run_javascript without a script argument')
+        a = n.args[0]
+        if isinstance(a, ast.Constant):
+          continue
+        if isinstance(a, ast.Name) and fn.name == '_run_javascript':
+          continue
+        if not isinstance(a, ast.JoinedStr):
+          raise TranslatorError(f'{rel}:{n.lineno}: _run_javascript argument is not an f-string')
+        site = JS_SITE_FUNCS.get(fn.name) if rel == CTLBASE else None
+        seen_data = False
+        for v in a.values:
+          if not isinstance(v, ast.FormattedValue):
+            continue
+          src = ast.unparse(v.value)
+          inner = js_escape_arg(v.value)
+          if inner is not None:
+            if site and site[1] in ast.unparse(inner):
+              table[site[0]] = {'escaped': True, 'expr': src, 'line': v.value.lineno}
+              seen_data = True
+            continue
+          if src in JS_IDENT_HOLES or src.startswith('self.element_id('):
+            continue
+          if site and site[1] in src:
+            table[site[0]] = {'escaped': False, 'expr': src, 'line': v.value.lineno}
+            seen_data = True
+            continue
+          raise TranslatorError(f'{rel}:{v.value.lineno}: unclassified hole `{src}` in a script passed to _run_javascript')
+        if site and not seen_data:
+          raise TranslatorError(f'{rel}: {fn.name}: the data hole `{site[1]}` was not found in the script')
+  missing = [s for s in JS_SITES if s not in table]
+  if missing:
+    raise TranslatorError(f'{CTLBASE}: update script site(s) not found: {missing}')
+  return table
+
+
 EXPECTED_PIECES = sorted({'<{}', ' {}', ' class="{}"', ' style="{}"', ' {}="{}"', '>', '</{}>'})
 
 
@@ -237,10 +352,13 @@ def run():
   findings_known = common.known_exceptions('C20', 'unescaped')
   srcs = {}
   trees = {}
-  for rel in (BASE, TREE, LABEL, TOOLTIP, TAB, PROGRESS):
+  for rel in (BASE, TREE, LABEL, TOOLTIP, TAB, PROGRESS, CTLBASE):
     srcs[rel], trees[rel] = common.parse_source(rel)
 
   quote, pieces = extract_base(trees[BASE])
+  js_pairs, js_sequential = extract_js_table(trees[BASE])
+  js_sites = extract_js_sites(trees)
+  js_known = common.known_exceptions('C20', 'js_unescaped')
 
   view = common.find_class(trees[TREE], 'HtmlTreeView')
   table = {}
@@ -378,6 +496,24 @@ def run():
   L.append('    ' + ' | '.join(EXPECTED_PIECES) + '  (found: ' + ' | '.join(pieces) + '). -/')
   L.append(f'def elementShapeOk : Bool := {common.lean_bool(pieces == EXPECTED_PIECES)}')
   L.append('')
+  L.append('/-- The javascript_str branch of `Html.escape`: (character, replacement) in source order;')
+  L.append('    sequential = a chain of str.replace (order matters), otherwise one str.translate pass. -/')
+  L.append('def jsEscapeTable : List (Char × Str) := ' + common.lean_list(
+      ['(Char.ofNat %d, [%s])' % (ord(a), ', '.join('Char.ofNat %d' % ord(c) for c in b)) for a, b in js_pairs]))
+  L.append(f'def jsEscapeSequential : Bool := {common.lean_bool(js_sequential)}')
+  L.append('')
+  L.append('/-- Update scripts of interactive controls (controls/base.py): holes that carry user text. -/')
+  L.append('inductive JsSiteId where')
+  for x in JS_SITES:
+    L.append(f'  | {x}')
+  L.append('  deriving DecidableEq, Repr')
+  L.append('')
+  L.append('/-- For each, is the text passed through `Html.escape(…, javascript_str=True)`? -/')
+  L.append('def jsSiteTable : List (JsSiteId × Bool) := [')
+  L.append(',\n'.join(f'  (.{x}, {common.lean_bool(js_sites[x]["escaped"])})' for x in JS_SITES))
+  L.append(']')
+  L.append('def knownUnescapedJs : List JsSiteId := ' + common.lean_list(['.' + x for x in js_known if x in JS_SITES]))
+  L.append('')
   L.append('/-- Static exception list, from the findings files (never from the source). -/')
   L.append('def knownUnescaped : List SiteId := ' + common.lean_list(['.' + s for s in findings_known if s in SITES]))
   L.append('')
@@ -387,6 +523,7 @@ def run():
       'sources': {rel: common.sha(rel) for rel in srcs},
       'sites': table,
       'escape_quote': quote,
+      'js_escape_table': js_pairs, 'js_escape_sequential': js_sequential, 'js_sites': js_sites,
       'element_pieces': pieces,
       'dynamic_styles': dyn_styles,
       'known_unescaped': findings_known,
